@@ -275,7 +275,11 @@ def gen_points(rng, T, cls, shape, want_outside):
     for _ in range(k):
         pts.append((rng.randrange(nrow), rng.randrange(ncol), rng.choice(fracs), rng.choice(fracs)))
     if want_outside == "far":
-        r, cc = rng.choice([(-1, 0), (nrow, 0), (0, -1), (0, ncol), (-2, -3), (nrow + 1, ncol + 2)])
+        # just outside any side, in ANY row / column (a linear-index style bounds test would wrap these
+        # into a neighbouring row), or far outside
+        r, cc = rng.choice([(-1, rng.randrange(ncol)), (nrow, rng.randrange(ncol)), (rng.randrange(nrow), -1),
+                            (rng.randrange(nrow), ncol), (rng.randrange(nrow), -rng.randint(1, ncol)),
+                            (-2, -3), (nrow + 1, ncol + 2), (nrow, -1), (-1, ncol)])
         pts[rng.randrange(k)] = (r + rng.randrange(1), cc, rng.choice(fracs), rng.choice(fracs))
     elif want_outside == "edge" and cls == "exact":
         # exactly on the far edges of the raster (half-open cells: these are outside)
@@ -730,8 +734,11 @@ def case_real(ctx, rng, T, shape):
         ctx.fail(desc, "spec", f"round trip index(xy(i)) != i on a non-dyadic transform: {err or ints(back)}")
     # outside: one cell beyond each side
     a, e, c, f = T[0], T[4], T[2], T[5]
-    for (x, y) in [(c - 0.5 * a, f + 0.5 * e), (c + (ncol + 0.5) * a, f + 0.5 * e), (c + 0.5 * a, f - 0.5 * e),
-                   (c + 0.5 * a, f + (nrow + 0.5) * e)]:
+    pts = [(c + 0.5 * a, f - 0.5 * e), (c + 0.5 * a, f + (nrow + 0.5) * e)]
+    for r in range(nrow):   # half a cell left / right of EVERY row
+        pts += [(c - 0.5 * a, f + (r + 0.5) * e), (c + (ncol + 0.5) * a, f + (r + 0.5) * e)]
+    pts += [(c - 0.5 * a, f + (nrow + 0.5) * e), (c + (ncol + 0.5) * a, f - 0.5 * e)]  # diagonal corners
+    for (x, y) in pts:
         err, _ = call(flw.index, np.array([x]), np.array([y]))
         if err != "IndexError":
             ctx.fail({**desc, "op": "index", "x": x, "y": y}, "spec",
